@@ -427,6 +427,374 @@ theorem storedPositions_iff_nonzero (cs : CS Rat) (hwf : cs.WF) (hnz : cs.NoStor
     obtain ⟨e, he, hej⟩ := List.mem_map.mp hmem
     exact ⟨i, hi, e, he, rfl, hej⟩
 
+/-! ### `holds` is true of the model's own observation of every coherent state -/
+
+section ModelHolds
+variable (s : TState) (probes : List (Axis × Id)) (hc : Coherent s)
+include hc
+
+private theorem nO_eq : Cl.nO (observe s probes) = s.nrows := by simp [Cl.nO, observe, hc.obs.1]
+private theorem nS_eq : Cl.nS (observe s probes) = s.ncols := by simp [Cl.nS, observe, hc.samp.1]
+private theorem dense_eq : (observe s probes).dense = s.rows := rfl
+
+private theorem idx_eq (ax : Axis) (id : Id) :
+    (match indexAcc s ax id with | .ok i => some i | .error _ => none) = indexOf? (s.axis ax).ids id := by
+  have hax : ∀ x, dictGet (s.axis ax).index x = indexOf? (s.axis ax).ids x := by
+    cases ax
+    · exact hc.obs.2.2.1
+    · exact hc.samp.2.2.1
+  unfold indexAcc
+  rw [hax id]
+  cases indexOf? (s.axis ax).ids id <;> rfl
+
+theorem cl_answers : Cl.answers (observe s probes) = true := by simp [Cl.answers, observe]
+
+theorem cl_shape : Cl.shape (observe s probes) = true := by
+  simp [Cl.shape, Cl.nO, Cl.nS, observe, hc.obs.1, hc.samp.1]
+
+theorem cl_denseShape : Cl.denseShape (observe s probes) = true := by
+  simp only [Cl.denseShape, nO_eq s probes hc, nS_eq s probes hc, dense_eq s probes hc, Bool.and_eq_true, beq_iff_eq,
+    List.all_eq_true]
+  exact ⟨hc.nrows, hc.ncols⟩
+
+theorem cl_uniqObs : Cl.uniqObs (observe s probes) = true := by
+  simp [Cl.uniqObs, observe, hasDup_false_of_nodup _ hc.obs.2.1]
+
+theorem cl_uniqSamp : Cl.uniqSamp (observe s probes) = true := by
+  simp [Cl.uniqSamp, observe, hasDup_false_of_nodup _ hc.samp.2.1]
+
+theorem cl_idxObs : Cl.idxObs (observe s probes) = true := by
+  have h : (observe s probes).indexObs = s.obs.ids.map (indexOf? s.obs.ids) := by
+    simp only [observe]
+    apply List.map_congr_left
+    intro id _
+    exact idx_eq s hc .obs id
+  unfold Cl.idxObs
+  rw [h, map_indexOf?_self _ hc.obs.2.1]
+  simp [Cl.nO, observe]
+
+theorem cl_idxSamp : Cl.idxSamp (observe s probes) = true := by
+  have h : (observe s probes).indexSamp = s.samp.ids.map (indexOf? s.samp.ids) := by
+    simp only [observe]
+    apply List.map_congr_left
+    intro id _
+    exact idx_eq s hc .samp id
+  unfold Cl.idxSamp
+  rw [h, map_indexOf?_self _ hc.samp.2.1]
+  simp [Cl.nS, observe]
+
+theorem cl_existsAll : Cl.existsAll (observe s probes) = true := by
+  simp only [Cl.existsAll, Cl.nO, Cl.nS, observe, List.length_map, beq_self_eq_true, Bool.and_true, Bool.and_eq_true,
+    List.all_eq_true, List.mem_map, id]
+  constructor
+  · rintro b ⟨i, hi, rfl⟩; exact (exists_spec s .obs hc i).mpr hi
+  · rintro b ⟨i, hi, rfl⟩; exact (exists_spec s .samp hc i).mpr hi
+
+theorem cl_probes : Cl.probes (observe s probes) = true := by
+  simp only [Cl.probes, observe, List.all_eq_true, List.mem_map, id]
+  rintro b ⟨⟨ax, i⟩, _, rfl⟩
+  by_cases hm : i ∈ (s.axis ax).ids
+  · simp [hm]
+  · have hu := unknown_spec s ax hc i hm
+    simp [hu.1, hu.2]
+
+theorem cl_omd : Cl.omd (observe s probes) = true := by
+  simp only [Cl.omd, Cl.nO, observe]
+  cases hmd : s.obs.md with
+  | none => rfl
+  | some m => simp [hc.obs.2.2.2 m hmd, hc.obs.1]
+
+theorem cl_smd : Cl.smd (observe s probes) = true := by
+  simp only [Cl.smd, Cl.nS, observe]
+  cases hmd : s.samp.md with
+  | none => rfl
+  | some m => simp [hc.samp.2.2.2 m hmd, hc.samp.1]
+
+/-- when both axes are non-empty the per-ID accessor fields of the observation are the full lists -/
+private theorem ne_id {γ : Type} (hne : Cl.nonEmpty (observe s probes) = true) (l : List γ) :
+    (if s.obs.ids.isEmpty || s.samp.ids.isEmpty then [] else l) = l := by
+  simp only [Cl.nonEmpty, Cl.nO, Cl.nS, observe, Bool.and_eq_true, decide_eq_true_eq] at hne
+  have h1 : s.obs.ids.isEmpty = false := by
+    cases h : s.obs.ids with
+    | nil => simp [h] at hne
+    | cons _ _ => rfl
+  have h2 : s.samp.ids.isEmpty = false := by
+    cases h : s.samp.ids with
+    | nil => simp [h] at hne
+    | cons _ _ => rfl
+  simp [h1, h2]
+
+theorem cl_dataObs : Cl.dataObs (observe s probes) = true := by
+  unfold Cl.dataObs
+  cases hne : Cl.nonEmpty (observe s probes) with
+  | false => rfl
+  | true =>
+    simp only [Bool.not_true, Bool.false_or, beq_iff_eq]
+    show (observe s probes).dataObs = s.rows
+    simp only [observe]
+    rw [ne_id s probes hc hne]
+    apply map_eq_of_getElem _ _ _ (hc.obs.1.trans hc.nrows.symm)
+    intro k hk
+    have hk' : k < s.rows.length := by rw [hc.nrows, ← hc.obs.1]; exact hk
+    rw [data_obs_spec s hc k _ s.rows[k] (List.getElem?_eq_getElem hk) (List.getElem?_eq_getElem hk')]
+
+theorem cl_dataSamp : Cl.dataSamp (observe s probes) = true := by
+  unfold Cl.dataSamp
+  cases hne : Cl.nonEmpty (observe s probes) with
+  | false => rfl
+  | true =>
+    simp only [Bool.not_true, Bool.false_or, beq_iff_eq, nS_eq s probes hc]
+    show (observe s probes).dataSamp = (List.range s.ncols).map (colAt s.rows)
+    simp only [observe]
+    rw [ne_id s probes hc hne]
+    apply map_eq_of_getElem _ _ _ (by simp [hc.samp.1])
+    intro k hk
+    rw [data_samp_spec s hc k _ (List.getElem?_eq_getElem hk)]
+    simp
+
+theorem cl_cells : Cl.cells (observe s probes) = true := by
+  unfold Cl.cells
+  cases hne : Cl.nonEmpty (observe s probes) with
+  | false => rfl
+  | true =>
+    simp only [Bool.not_true, Bool.false_or, beq_iff_eq]
+    show (observe s probes).cells = s.rows
+    simp only [observe]
+    rw [ne_id s probes hc hne]
+    apply map_eq_of_getElem _ _ _ (hc.obs.1.trans hc.nrows.symm)
+    intro i hi
+    have hi' : i < s.rows.length := by rw [hc.nrows, ← hc.obs.1]; exact hi
+    have hrl : (s.rows[i]).length = s.samp.ids.length := (hc.ncols _ (List.getElem_mem hi')).trans hc.samp.1.symm
+    apply map_eq_of_getElem _ _ _ hrl.symm
+    intro j hj
+    have hj' : j < (s.rows[i]).length := by rw [hrl]; exact hj
+    rw [value_spec s hc i j _ _ s.rows[i] (s.rows[i])[j] (List.getElem?_eq_getElem hi) (List.getElem?_eq_getElem hj)
+      (List.getElem?_eq_getElem hi') (List.getElem?_eq_getElem hj')]
+
+theorem cl_iterObs : Cl.iterObs (observe s probes) = true := by
+  unfold Cl.iterObs
+  cases hne : Cl.nonEmpty (observe s probes) with
+  | false => rfl
+  | true =>
+    simp only [Bool.not_true, Bool.false_or, beq_iff_eq]
+    simp only [observe]
+    rw [ne_id s probes hc hne]
+
+theorem cl_iterSamp : Cl.iterSamp (observe s probes) = true := by
+  unfold Cl.iterSamp
+  cases hne : Cl.nonEmpty (observe s probes) with
+  | false => rfl
+  | true =>
+    simp only [Bool.not_true, Bool.false_or, beq_iff_eq, nS_eq s probes hc]
+    simp only [observe, Cl.col]
+    rw [ne_id s probes hc hne]
+    rfl
+
+theorem cl_nonzero : Cl.nonzero (observe s probes) = true := by
+  unfold Cl.nonzero
+  cases hne : Cl.nonEmpty (observe s probes) with
+  | false => rfl
+  | true =>
+    have h : (observe s probes).nonzero = Cl.expNonzero (observe s probes) := by
+      simp only [observe, Cl.expNonzero]
+      rw [ne_id s probes hc hne]
+      rfl
+    simp only [Bool.not_true, Bool.false_or, h, all_contains_self, beq_self_eq_true, Bool.and_self]
+
+theorem cl_sumWhole : Cl.sumWhole (observe s probes) = true := by
+  simp only [Cl.sumWhole, observe]
+  exact approxEq_self _ _
+
+theorem cl_sumObs : Cl.sumObs (observe s probes) = true := by
+  simp only [Cl.sumObs, nO_eq s probes hc, Bool.and_eq_true, beq_iff_eq]
+  refine ⟨by simp [observe, C05.sumObs, hc.nrows], ?_⟩
+  simp only [observe, C05.sumObs, List.all_eq_true]
+  intro xr hxr
+  obtain ⟨x, r⟩ := xr
+  have := List.of_mem_zip hxr
+  have hx : x = sumRow r := by
+    have hz : (x, r) ∈ (s.rows.map sumRow).zip s.rows := hxr
+    rw [List.zip_map_left] at hz
+    simp only [List.mem_map] at hz
+    obtain ⟨⟨a, b⟩, hab, he⟩ := hz
+    have hab' := List.mem_iff_getElem.mp hab
+    obtain ⟨k, hk, hkk⟩ := hab'
+    simp only [List.getElem_zip] at hkk
+    simp only [Prod.map, Prod.mk.injEq] at he
+    have : a = b := by
+      have := congrArg Prod.fst hkk; have h2 := congrArg Prod.snd hkk; simp at this h2; rw [← this, ← h2]
+    rw [← he.1, ← he.2, this]; rfl
+  rw [hx]; exact approxEq_self _ _
+
+theorem cl_nnz : Cl.nnz (observe s probes) = true := by
+  simp only [Cl.nnz, beq_iff_eq]
+  show nnzAcc s = (Cl.expNonzero (observe s probes)).length
+  rw [nnz_eq_nonzero_length s hc]; rfl
+
+theorem cl_nzcObs : Cl.nzcObs (observe s probes) = true := by simp [Cl.nzcObs, observe]
+
+theorem cl_nzcSamp : Cl.nzcSamp (observe s probes) = true := by
+  simp [Cl.nzcSamp, Cl.col, Cl.nS, observe, hc.samp.1]
+
+theorem cl_sumSamp : Cl.sumSamp (observe s probes) = true := by
+  simp only [Cl.sumSamp, nS_eq s probes hc, Bool.and_eq_true, beq_iff_eq]
+  refine ⟨by simp [observe, C05.sumSamp], ?_⟩
+  have h : (observe s probes).sumSamp = (List.range s.ncols).map (fun j => sumRow (colAt s.rows j)) := rfl
+  have h2 : (fun j => Cl.col (observe s probes) j) = (fun j => colAt s.rows j) := rfl
+  rw [h]
+  exact all_zip_map_map (List.range s.ncols) (fun j => sumRow (colAt s.rows j)) (Cl.col (observe s probes))
+    (fun x c => approxEq x (sumRow c) (sumAbs c)) (fun k _ => approxEq_self _ _)
+
+private theorem obs_row_of_mem (a : Id) (ha : a ∈ s.obs.ids) :
+    lookupBy s.obs.ids s.rows a =
+      some (match dataAcc s .obs a with | .ok v => v | .error _ => []) := by
+  obtain ⟨k, hk, rfl⟩ := List.mem_iff_getElem.mp ha
+  have hk' : k < s.rows.length := by rw [hc.nrows, ← hc.obs.1]; exact hk
+  rw [lookupBy_getElem s.obs.ids s.rows hc.obs.2.1 (hc.obs.1.trans hc.nrows.symm) k hk hk',
+    data_obs_spec s hc k _ s.rows[k] (List.getElem?_eq_getElem hk) (List.getElem?_eq_getElem hk')]
+
+theorem cl_pairRows : Cl.pairRows (observe s probes) = true := by
+  unfold Cl.pairRows
+  cases hne : Cl.nonEmpty (observe s probes) with
+  | false => rfl
+  | true =>
+    simp only [Bool.not_true, Bool.false_or, List.all_eq_true]
+    intro p hp
+    have hp' : p ∈ (List.range s.obs.ids.length).flatMap (fun i => ((List.range s.obs.ids.length).filter (· > i)).filterMap (fun j =>
+        match s.obs.ids[i]?, s.obs.ids[j]? with
+        | some a, some b => some ((a, match dataAcc s .obs a with | .ok v => v | .error _ => []),
+                                  (b, match dataAcc s .obs b with | .ok v => v | .error _ => []))
+        | _, _ => none)) := by
+      have := hp
+      simp only [observe] at this
+      rw [ne_id s probes hc hne] at this
+      exact this
+    simp only [List.mem_flatMap, List.mem_filterMap] at hp'
+    obtain ⟨i, _, j, _, hij⟩ := hp'
+    cases hi : s.obs.ids[i]? with
+    | none => simp [hi] at hij
+    | some a =>
+      cases hj : s.obs.ids[j]? with
+      | none => simp [hi, hj] at hij
+      | some b =>
+        simp only [hi, hj, Option.some.injEq] at hij
+        subst hij
+        have ha : a ∈ s.obs.ids := List.mem_of_getElem? hi
+        have hb : b ∈ s.obs.ids := List.mem_of_getElem? hj
+        show (lookupBy s.obs.ids s.rows a == some _ && lookupBy s.obs.ids s.rows b == some _) = true
+        rw [obs_row_of_mem s hc a ha, obs_row_of_mem s hc b hb]
+        simp
+
+theorem cl_pairList : Cl.pairList (observe s probes) = true := by
+  unfold Cl.pairList
+  cases hne : Cl.nonEmpty (observe s probes) with
+  | false => rfl
+  | true =>
+    simp only [Bool.not_true, Bool.false_or, beq_iff_eq]
+    show (observe s probes).pairwiseObs.map (fun p => (p.1.1, p.2.1)) = Cl.expPairs s.obs.ids
+    simp only [observe]
+    rw [ne_id s probes hc hne]
+    simp only [Cl.expPairs, List.map_flatMap, List.map_filterMap]
+    apply flatMap_congr'
+    intro i _
+    apply filterMap_congr'
+    intro j _
+    cases s.obs.ids[i]? <;> cases s.obs.ids[j]? <;> rfl
+
+theorem cl_density : Cl.density (observe s probes) = true := by
+  unfold Cl.density
+  cases hne : Cl.nonEmpty (observe s probes) with
+  | false =>
+    simp only [Bool.false_eq_true, if_false, beq_iff_eq]
+    simp only [Cl.nonEmpty, Cl.nO, Cl.nS, observe, Bool.and_eq_false_iff, decide_eq_false_iff_not, Nat.not_lt,
+      Nat.le_zero] at hne
+    have : (s.obs.ids.isEmpty || s.samp.ids.isEmpty) = true := by
+      rcases hne with h | h
+      · simp [List.length_eq_zero_iff.mp h]
+      · simp [List.length_eq_zero_iff.mp h]
+    simp [observe, this]
+  | true =>
+    simp only [if_true]
+    have hnn : (Cl.expNonzero (observe s probes)).length = nnzAcc s := by
+      rw [nnz_eq_nonzero_length s hc]; rfl
+    have hd : (observe s probes).density = (nnzAcc s : Rat) / ((s.obs.ids.length * s.samp.ids.length : Nat) : Rat) := by
+      have := ne_id s probes hc hne ([] : List Nat)
+      simp only [observe]
+      have hemp : (s.obs.ids.isEmpty || s.samp.ids.isEmpty) = false := by
+        simp only [Cl.nonEmpty, Cl.nO, Cl.nS, observe, Bool.and_eq_true, decide_eq_true_eq] at hne
+        cases h1 : s.obs.ids with
+        | nil => simp [h1] at hne
+        | cons _ _ =>
+          cases h2 : s.samp.ids with
+          | nil => simp [h2] at hne
+          | cons _ _ => rfl
+      simp [hemp]
+    have hpos : ((s.obs.ids.length * s.samp.ids.length : Nat) : Rat) ≠ 0 := by
+      apply natCast_ne_zero
+      simp only [Cl.nonEmpty, Cl.nO, Cl.nS, observe, Bool.and_eq_true, decide_eq_true_eq] at hne
+      exact Nat.ne_of_gt (Nat.mul_pos hne.1 hne.2)
+    have hno : Cl.nO (observe s probes) = s.obs.ids.length := rfl
+    have hns : Cl.nS (observe s probes) = s.samp.ids.length := rfl
+    rw [hd, hno, hns, hnn, Rat.div_mul_cancel hpos]
+    exact approxEq_self _ _
+
+/-- **Every accessor reports the same underlying matrix**: on every coherent state — hence, by
+`run_coherent`, after every history — each clause of `holds` is true of what the model's accessors
+(index, exists, data, get_value_by_ids, iter, iter_pairwise, nonzero, sums, nnz, nonzero_counts,
+density) report, for any list of probe IDs. -/
+theorem model_clauses : ∀ cb ∈ clauses (observe s probes), cb.2 = true := by
+  intro cb hcb
+  simp only [clauses, List.mem_cons, List.mem_nil_iff, or_false] at hcb
+  rcases hcb with rfl | rfl | rfl | rfl | rfl | rfl | rfl | rfl | rfl | rfl | rfl | rfl | rfl | rfl | rfl | rfl | rfl | rfl |
+    rfl | rfl | rfl | rfl | rfl | rfl | rfl | rfl
+  · exact cl_answers s probes hc
+  · exact cl_shape s probes hc
+  · exact cl_denseShape s probes hc
+  · exact cl_uniqObs s probes hc
+  · exact cl_uniqSamp s probes hc
+  · exact cl_idxObs s probes hc
+  · exact cl_idxSamp s probes hc
+  · exact cl_existsAll s probes hc
+  · exact cl_probes s probes hc
+  · exact cl_omd s probes hc
+  · exact cl_smd s probes hc
+  · exact cl_dataObs s probes hc
+  · exact cl_dataSamp s probes hc
+  · exact cl_cells s probes hc
+  · exact cl_iterObs s probes hc
+  · exact cl_iterSamp s probes hc
+  · exact cl_pairRows s probes hc
+  · exact cl_pairList s probes hc
+  · exact cl_nonzero s probes hc
+  · exact cl_sumWhole s probes hc
+  · exact cl_sumObs s probes hc
+  · exact cl_sumSamp s probes hc
+  · exact cl_nnz s probes hc
+  · exact cl_nzcObs s probes hc
+  · exact cl_nzcSamp s probes hc
+  · exact cl_density s probes hc
+
+theorem model_holds : holds (observe s probes) = none := by
+  unfold holds Codec.allV
+  have h := model_clauses s probes hc
+  generalize clauses (observe s probes) = l at h
+  suffices ∀ acc, acc = none → List.foldl Codec.Verdict.and acc (l.map (fun cb => Codec.chk cb.1 cb.2)) = none from this none rfl
+  induction l with
+  | nil => intro acc ha; simpa using ha
+  | cons x xs ih =>
+    intro acc ha
+    simp only [List.map_cons, List.foldl_cons]
+    apply ih (fun cb hcb => h cb (List.mem_cons_of_mem _ hcb))
+    subst ha
+    simp [Codec.Verdict.and, Codec.chk, h x (List.mem_cons_self ..)]
+
+/-- the property for every history: start from any coherent table, apply any operations, observe. -/
+theorem history_holds (ops : List Op) (hops : ∀ op ∈ ops, op.NonEmptyCtor) :
+    holds (observe (run s ops) probes) = none :=
+  model_holds (run s ops) probes (run_coherent s ops hc hops)
+
+end ModelHolds
+
 /-! Non-vacuity: the hypotheses are met by a concrete table and history, and the history really
 changes IDs, lookups and metadata. -/
 def demoArgs : CtorArgs :=
